@@ -33,11 +33,21 @@ Proof. intros H. induction l as [|[k x] l IH]; simpl; auto. now rewrite H, IH. Q
 
 Lemma keyed_slice nd key d e n :
   keyed_decode nd key d (TSlice e n) =
-  match d with DList l => omap VList (dec_list (fun x => keyed_decode nd key x e) l) | _ => Err 40 end.
+  if netip e n then match d with DStr s => parse_ip s | _ => Err 40 end
+  else match d with DList l => omap VList (dec_list (fun x => keyed_decode nd key x e) l) | _ => Err 40 end.
 Proof.
-  destruct d; try reflexivity. simpl. f_equal.
+  simpl. destruct (netip e n); [reflexivity|].
+  destruct d; try reflexivity. f_equal.
   induction l; simpl; auto. now rewrite IHl.
 Qed.
+
+Lemma netip_sub_type e n : netip (sub_type e) n = netip e n.
+Proof.
+  destruct e; try reflexivity. simpl. destruct (str_eqb name duration_name); reflexivity.
+Qed.
+
+Lemma netip_struct fs m n : netip (TStruct fs m) n = false.
+Proof. reflexivity. Qed.
 
 Lemma keyed_map nd key d kn e n :
   keyed_decode nd key d (TMap (TBasic KString kn) e n) =
@@ -108,7 +118,7 @@ Proof.
     + pose proof (decode_basic_sub k name d) as H. rewrite E in H. exact H.
     + pose proof (decode_basic_sub k name d) as H. rewrite E in H. exact H.
   - simpl sub_type. rewrite !keyed_ptr, IHt by assumption. reflexivity.
-  - simpl sub_type. rewrite !keyed_slice. destruct d; auto.
+  - simpl sub_type. rewrite !keyed_slice, netip_sub_type. destruct (netip t name); auto. destruct d; auto.
     rewrite (dec_list_ext _ (fun x => keyed_decode true key x t)); auto.
   - apply andb_true_iff in Hs as [Hk Hv]. simpl sub_type.
     destruct t1; try reflexivity. simpl sub_type.
@@ -135,7 +145,7 @@ Proof.
   - (* TSlice *)
     destruct t; try (apply (sub_type_decode key (TSlice _ name)); exact H0).
     change (subst_ty (TSlice (TStruct fs name0) name)) with (TSlice (subst_ty (TStruct fs name0)) name).
-    rewrite !keyed_slice. destruct d; auto.
+    rewrite !keyed_slice, !netip_struct. destruct d; auto.
     rewrite (dec_list_ext _ (fun x => keyed_decode true key x (TStruct fs name0))); auto.
   - (* TArray *) destruct t; reflexivity.
   - (* TMap *) apply (sub_type_decode key (TMap k v name)); auto.
@@ -170,7 +180,7 @@ Lemma scalar_key_indep nd key1 key2 : forall t, scalarish t = true ->
 Proof.
   induction t; intros Hs d; simpl in Hs; try discriminate; try reflexivity.
   - rewrite !keyed_ptr, IHt by assumption. reflexivity.
-  - rewrite !keyed_slice. destruct d; auto.
+  - rewrite !keyed_slice. destruct (netip t name); auto. destruct d; auto.
     rewrite (dec_list_ext _ (fun x => keyed_decode nd key2 x t)); auto.
   - apply andb_true_iff in Hs as [Hk Hv].
     destruct t1; try reflexivity. destruct k; try reflexivity.
@@ -205,7 +215,7 @@ Proof.
     destruct t; try (apply Hsc; exact H0).
     change (tagcopy_ty dials_tag (fmt_tag f) (TSlice (TStruct fs name0) name))
       with (TSlice (tagcopy_ty dials_tag (fmt_tag f) (TStruct fs name0)) name).
-    rewrite !keyed_slice. destruct d; auto.
+    rewrite !keyed_slice, !netip_struct. destruct d; auto.
     rewrite (dec_list_ext _ (fun x => keyed_decode nd (spec_key f) x (TStruct fs name0))); auto.
   - (* TArray *) destruct t; reflexivity.
   - (* TStruct *)
@@ -296,6 +306,15 @@ Proof.
     + now rewrite (proj2 (tags_wf_subst_mut FCue)).
 Qed.
 
+(* ---- sets as lists (the set-slice wrapper ez puts around every decoder) ---- *)
+Theorem set_as_list_l f d pfs :
+  dec_ok (setslice_fields pfs) = true -> tags_wf f (setslice_fields pfs) = true ->
+  decode_wrapped f d pfs = spec_wrapped f d pfs.
+Proof.
+  intros Hok Hwf. unfold decode_wrapped, spec_wrapped. rewrite decoders_agree_l by assumption.
+  destruct (spec_decode f d (setslice_fields pfs)); reflexivity.
+Qed.
+
 (* ---- without format-specific tags the four formats use the same keys ---- *)
 Lemma spec_key_no_fmt f n tags : no_fmt tags = true ->
   spec_key f n tags = match tag_get dials_tag tags with [] => n | k => k end.
@@ -314,7 +333,7 @@ Lemma spec_same_keys_mut nd f g :
 Proof.
   apply ty_fields_ind; intros; cbv beta in *; try reflexivity.
   - rewrite !keyed_ptr, H; auto.
-  - rewrite !keyed_slice. destruct d; auto.
+  - rewrite !keyed_slice. destruct (netip t name); auto. destruct d; auto.
     rewrite (dec_list_ext _ (fun x => keyed_decode nd (spec_key g) x t)); auto.
   - destruct k; try reflexivity. destruct k; try reflexivity.
     rewrite !keyed_map. destruct d; auto.
